@@ -3,6 +3,7 @@ import CallbagModel.Inv.Combine
 import CallbagModel.Inv.ComposeInst
 import CallbagModel.Inv.ComposeSafe
 import CallbagModel.Inv.Concat
+import CallbagModel.Inv.FlatPlugSafe
 import CallbagModel.Inv.Flatten
 import CallbagModel.Inv.ForEach
 import CallbagModel.Inv.FromIter
@@ -84,6 +85,11 @@ theorem C17_closed_pipeline {S1 L1 S2 L2 α β γ : Type} {Msrc : Machine S1 L1 
 theorem C17_plugged {S1 L1 S2 L2 α β γ : Type} {M1 : Machine S1 L1 α β} {M2 : Machine S2 L2 β γ} (H : PlugSafe.HypP M1 M2) (j : Nat) :
     ∀ s, SReach (plug j M1 M2) s → SafeFor 17 s :=
   fun s hs => safeFor_of_basicSafe _ s hs (PlugSafe.plug_basicSafe H j s hs) 17 (by decide)
+
+theorem C17_flatten_network {So Lo Si Li αo αi : Type} {Mo : Machine So Lo αo Int} {Mi : Machine Si Li αi Int} {initOf : Int → Si}
+    (H : FlatPlugSafe.HypF Mo Mi initOf) :
+    ∀ s, SReach (flatPlug Mo Mi initOf) s → SafeFor 17 s :=
+  fun s hs => safeFor_of_basicSafe _ s hs (FlatPlugSafe.flatPlug_basicSafe H s hs) 17 (by decide)
 
 
 /-- `share`, EVERY conformant environment (nested fan-out included): the only phase-level violations share can commit are deliveries
